@@ -60,6 +60,7 @@ func main() {
 	runAppendTie(f, res, drv)
 	runSyncTie(f, res, drv)
 	runRacyTie(f, res, drv, tbl)
+	runOwnTie(f, res, drv)
 	drv.Close()
 	runRace(f, res, tbl)
 	if err := res.Write(f.Out); err != nil {
@@ -418,6 +419,36 @@ func consumerSide(tbl *Table, other, mine []int) []int {
 	return append(append([]int{}, mine...), add...)
 }
 
+// ownerSide: if `mine` holds no row of a lent-argument location `other` reads on a goroutine of its own,
+// return the caller:owner rows of those locations.
+func ownerSide(tbl *Table, other, mine []int) []int {
+	var add []int
+	for _, x := range other {
+		r := tbl.Rows[x]
+		if r.Kind != "R" || !strings.HasPrefix(r.Field, "arg:") {
+			continue
+		}
+		have := false
+		for _, y := range mine {
+			if tbl.Rows[y].Field == r.Field {
+				have = true
+			}
+		}
+		if have {
+			continue
+		}
+		for i, w := range tbl.Rows {
+			if w.Field == r.Field && w.Fn == "caller:owner" {
+				add = append(add, i)
+			}
+		}
+	}
+	if len(add) == 0 {
+		return mine
+	}
+	return append(append([]int{}, mine...), add...)
+}
+
 func trimStacks(r report) any {
 	out := []any{}
 	for _, s := range r.Stacks {
@@ -432,7 +463,7 @@ func trimStacks(r report) any {
 
 func runRace(f lib.Flags, res *lib.Result, tbl *Table) {
 	mon := res.Monitor("race-detector",
-		"each scenario (value, value-equiv, collection, collection-genid, collection-models, bus, router, router-stack, wrap-unary, wrap-stream, stream-bidi, group, electric, electric-activate, parent, metadata, waste-hail, default-models, memory-devices, caller-args, caller-args-wrap) runs in a child process of this -race binary with 4-16 goroutines (from the seed) of seeded random reads/writes/subscribes/cancels, interceptors and consumers that read what they are given, and (caller-args*) argument objects shared between the goroutines or rewritten right after each call returns; every report of the detector is a violation whose replay is the scenario + the two stacks; distinct = scenario x goroutine count")
+		"each scenario (value, value-equiv, collection, collection-genid, collection-models, bus, router, router-stack, wrap-unary, wrap-stream, stream-bidi, group, electric, electric-activate, parent, metadata, waste-hail, default-models, memory-devices, caller-args, caller-args-wrap, remaining-models, slow-writes, slow-writes-busy) runs in a child process of this -race binary with 4-16 goroutines (from the seed) of seeded random reads/writes/subscribes/cancels, interceptors and consumers that read what they are given, and (caller-args*) argument objects shared between the goroutines or rewritten right after each call returns, and (slow-writes*) write calls whose callbacks hold them open until the library's own one-second timers have fired, so that timer-started goroutines run while the write is in progress; every report of the detector is a violation whose replay is the scenario + the two stacks; distinct = scenario x goroutine count")
 	tie := res.Tie("table-vs-detector", "K4",
 		"per scenario: the table's verdict on the fields the scenario exercises (an unordered pair in scope allows a race, none forbids it) against what the detector saw; per detector report: the two stacks are mapped to table rows by their innermost repository frame and the table must call that pair unordered (a race between rows the table orders, or at a site missing from the table, is a disagreement); non-trivial = scenario executed to completion under the detector")
 	if !raceEnabled {
@@ -536,6 +567,10 @@ func runRace(f lib.Flags, res *lib.Result, tbl *Table) {
 			// given (no repository frame of its own, or a library read of the message): the caller's row
 			// is the synthetic `caller:consumer` reader of the same location
 			ra, rb = consumerSide(tbl, rb, ra), consumerSide(tbl, ra, rb)
+			// one side is a goroutine the library started reading a lent argument, the other side is whoever
+			// writes the argument on the owner's behalf (the caller, its interceptor, the library's in-place
+			// filter on the calling goroutine): the synthetic `caller:owner` writer of the same location
+			ra, rb = ownerSide(tbl, rb, ra), ownerSide(tbl, ra, rb)
 			verdict := "unordered"
 			switch {
 			case len(ra) == 0 || len(rb) == 0:
